@@ -24,10 +24,14 @@ static bool g_reg[kNumPal] = {false};
 static int g_flags[kNumPal] = {0};
 static std::vector<int> g_order;
 
-template<int PAL> static void c_create(void* p, Entity, World*) { int64_t v = 1000 + PAL; memcpy(p, &v, 8); }
-static void c_copy(void* d, const void* s) { memcpy(d, s, 8); }
-static void c_move(void* d, void* s) { memcpy(d, s, 8); }
-static void c_destroy(void*) {}
+// calls of the optional lifecycle functions of described components, by kind (printed as the D line: the C and the C++
+// interface must call the same functions the same number of times)
+static long g_dyn_calls[5] = {0, 0, 0, 0, 0};   // create, copy, move (assignment), move constructor, destroy
+template<int PAL> static void c_create(void* p, Entity, World*) { int64_t v = 1000 + PAL; memcpy(p, &v, 8); g_dyn_calls[0]++; }
+static void c_copy(void* d, const void* s) { memcpy(d, s, 8); g_dyn_calls[1]++; }
+static void c_move(void* d, void* s) { memcpy(d, s, 8); g_dyn_calls[2]++; }
+static void c_mctor(void* d, void* s) { memcpy(d, s, 8); g_dyn_calls[3]++; }
+static void c_destroy(void*) { g_dyn_calls[4]++; }
 static int64_t g_defaults[kNumPal];
 static std::string g_names[kNumPal];
 
@@ -40,7 +44,7 @@ static void do_register(int pal, int flags) {
                                     case 10: info.functions.create = &c_create<10>; break; default: info.functions.create = &c_create<11>; break; } }
     if (flags & 2) info.functions.copy = &c_copy;
     if (flags & 4) info.functions.move = &c_move;
-    if (flags & 8) info.functions.move_constructor = &c_move;
+    if (flags & 8) info.functions.move_constructor = &c_mctor;
     if (flags & 16) info.functions.destroy = &c_destroy;
     if (flags & 32) { g_defaults[pal] = 2000 + pal; info.default_value = &g_defaults[pal]; }
     g_cid[pal] = registerComponent(info);
@@ -140,6 +144,7 @@ static void do_job_acts() {
 }
 
 static void dump(World* w) {
+    printf("D cr=%ld cp=%ld mv=%ld mc=%ld ds=%ld\n", g_dyn_calls[0], g_dyn_calls[1], g_dyn_calls[2], g_dyn_calls[3], g_dyn_calls[4]);
     for (size_t k = 0; k < g_handles.size(); ++k) {
         std::vector<std::pair<ComponentId, int64_t>> comps;
         for (int p : g_order) {
